@@ -160,7 +160,8 @@ def check(chk, repo):
                "and collide with the labelled nodes' ids (rows of a pre-computed matrix are then read for the wrong samples)")
     if borrowed:
         return
-    check_row_ids(chk, rep, repo, only={"SemiSupervisedOPF.fit"}, floor=1)
+    # (the labelled nodes are built by Subgraph._build: the same rule there)
+    check_row_ids(chk, rep, repo, only={"SemiSupervisedOPF.fit", "Subgraph._build"}, floor=2)
     chk.floor("competition loops reachable from SemiSupervisedOPF.fit", len(comps), 2)
     # every forest is grown through the priority queue: its structural rules are a premise here too
     from ..rules_heap import check_heap
